@@ -654,6 +654,12 @@ func (e *AnimEncoder) encodeFrame(img image.Image, lossless bool, quality int) (
 		// If the alternate codec fails, use the primary result.
 		return bs, nil
 	}
+	if alt, forced := verifhook.Forced("anim.mixed-alt-codec"); forced {
+		if alt {
+			return bsAlt, nil
+		}
+		return bs, nil
+	}
 	if len(bsAlt) < len(bs) {
 		return bsAlt, nil
 	}
@@ -938,6 +944,9 @@ func (e *AnimEncoder) encodeSubFrame(currCanvas *image.NRGBA, durMS int) error {
 	changedArea := bestRect.Dx() * bestRect.Dy()
 	if changedArea > canvasArea*9/10 {
 		bsKey, errKey := e.encodeFrame(currCanvas, e.opts.Lossless, e.opts.Quality)
+		if key, forced := verifhook.Forced("anim.keyframe-fallback"); forced && key && errKey == nil {
+			return e.encodeKeyframe(currCanvas, durMS)
+		}
 		if errKey == nil && len(bsKey) < len(bestBS) {
 			return e.encodeKeyframe(currCanvas, durMS)
 		}
